@@ -1,3 +1,41 @@
-import TddaVerif.Py.Text
+/-
+C14 — rexpy results depend only on the multiset of examples and the seed.
+Proved here (for the batch path, i.e. below the sampling threshold): list form = dictionary form;
+frequencies are irrelevant without pruning options; repeating an example is a no-op; a call is a pure
+function of its inputs (the model has no hidden state). Invariance under reordering, the behaviour under
+sampling, the regex memo and the global PRNG are decided by the oracle on the real code
+(the model is tied on permuted inputs as well).
+-/
+import TddaVerif.Model.Rexpy
+import TddaVerif.Props.C03Spec
+import TddaVerif.Lemmas.RexpyInvariance
+
 namespace TddaVerif.Props.C14
+open TddaVerif.Py TddaVerif.Rexpy TddaVerif.Props.C03
+
+theorem clean_dict_eq_list (stripOpt removeEmpties : Bool) (items : List (Option Line × Nat)) :
+    clean stripOpt removeEmpties (Lemmas.expand items) = clean stripOpt removeEmpties items :=
+  Lemmas.clean_expand stripOpt removeEmpties items
+
+/-- a frequency dictionary and the list it stands for give the same result -/
+theorem dict_eq_list (T : CharTable) (o : Opts) (items : List (Option Line × Nat)) :
+    extract T o (Lemmas.expand items) = extract T o items :=
+  Lemmas.extract_dict_eq_list T o items
+
+/-- without pruning options only which strings were supplied matters, not how often -/
+theorem freq_irrelevant (T : CharTable) (o : Opts)
+    (hprune : o.maxPatterns = none ∧ o.minStrings ≤ 1) (items items' : List (Option Line × Nat))
+    (hs : (clean o.stripOpt o.removeEmpties items).strings = (clean o.stripOpt o.removeEmpties items').strings)
+    (hn : decide ((clean o.stripOpt o.removeEmpties items).nStripped > 0)
+            = decide ((clean o.stripOpt o.removeEmpties items').nStripped > 0)) :
+    extract T o items = extract T o items' :=
+  Lemmas.extract_freq_irrelevant T o hprune items items' hs hn
+
+/-- repeating an example changes nothing -/
+theorem repeat_is_noop (T : CharTable) (o : Opts)
+    (hprune : o.maxPatterns = none ∧ o.minStrings ≤ 1) (items : List (Option Line × Nat)) (s : Line) (n k : Nat)
+    (hin : (some s, n) ∈ items) (hn : n ≠ 0) :
+    extract T o (items ++ [(some s, k)]) = extract T o items :=
+  Lemmas.repeat_is_noop T o hprune items s n k hin hn
+
 end TddaVerif.Props.C14
